@@ -480,7 +480,7 @@ class ISD(model.Document):
 
     base = rb if rb is not None else rbc
 
-    if base is None or not any(isinstance(e, model.Text) for e in base.dfs_iterator()):
+    if base is None or not any(isinstance(e, (model.Text, model.Br)) for e in base.dfs_iterator()):
       return (None, [])
 
     span = model.Span(isd)
